@@ -17,6 +17,7 @@ type ValProfile struct {
 	MaxChildElems int    // initial element count of generated containers
 	KeySpace      int    // size of the integer key space for maps
 	BigKeys       bool   // allow keys around / above the key inline limit
+	BlindDispose  bool   // dispose of unloaded large values without reading them (World.blindDisposal)
 	ManyTypes     bool   // type infos drawn from hundreds of ids instead of 7
 	CompositeFlip bool   // SetType may turn a simple-typed map into a composite-typed one and back (compact form <-> plain form)
 }
